@@ -1,4 +1,5 @@
 import RisorModel.C03.Model
+import RisorModel.C03.Lemmas
 import RisorModel.Generated.C03
 /-!
 C03 ties: facts regenerated from /repo on this run (extract/c03.go) against the reviewed
@@ -39,10 +40,6 @@ def reviewedVmPanicSites : List String := [
   "vm.wrapCode#0: panic(fmt.Sprintf(\"unsupported constant type: %T\", constant))"
 ]
 
-/-- the recover scopes the property relies on -/
-def requiredRecovers : List String :=
-  ["object.NewThread", "vm.VirtualMachine.Call", "vm.VirtualMachine.runCodeInternal"]
-
 /-- no explicit panic on the parse/compile path outside the reviewed list -/
 theorem panic_sites_reviewed : panicSites.all (reviewedPanicSites.contains ·) = true := by decide
 
@@ -54,6 +51,13 @@ theorem vm_panic_sites_reviewed : vmPanicSites.all (reviewedVmPanicSites.contain
 
 /-- `Run`/`RunCode`, `Call` and spawned threads still recover -/
 theorem recover_scopes_present : requiredRecovers.all (vmRecovers.contains ·) = true := by decide
+
+/-- … hence, with the recover scopes the extractor finds in the code of THIS run, no
+    evaluation — whatever its entry point, whatever panics in its main code and in any of
+    the threads it starts — ends with the process killed (model level; the harness's
+    `thread|…` cases observe the same on the real code with concurrency enabled). -/
+theorem code_scopes_contain_panics (x : Exec) : x.killed vmRecovers = false :=
+  exec_not_killed vmRecovers recover_scopes_present x
 
 /-- the array sizes of the VM model are the ones in vm/vm.go -/
 theorem vm_limits_match : maxStackDepth = maxStack ∧ maxFrameDepth = maxFrames := by decide
